@@ -96,7 +96,8 @@ func runC10(r *Runner, tier string, rng *Rng) {
 			cfg.ExtraPerStep = rng.Intn(2)
 		}
 		if rng.Chance(30) {
-			cfg.Inspections = []string{rng.Pick([]string{"noop", "create", "modify"})}
+			// (a command that cannot be started fails the call - and must leave nothing behind for the next)
+			cfg.Inspections = []string{rng.Pick([]string{"noop", "create", "modify", "missing"})}
 		}
 		// MORE counted links than the threshold asks for, one of them disagreeing: all of them are
 		// compared, whichever the map hands out first (seeded change c10-threshold-early-exit)
